@@ -4,13 +4,12 @@ set -e
 cd "$(dirname "$0")"
 export GOFLAGS=-mod=mod GOPROXY=off GOSUMDB=off GOTOOLCHAIN=local
 mkdir -p bin work evidence replays lean/BlugeGen
-(cd go/extract && go build -o ../../bin/extract .)
 PROPS=$(python3 -c "import json;print(' '.join(c['property_id'] for c in json.load(open('MANIFEST.json'))['checks']))")
 TARGETS=""
 for p in $PROPS; do
   lp=$(echo "$p" | tr 'A-Z' 'a-z')
   if [ -f "checks/$lp.py" ] && grep -q '^GEN *= *True' "checks/$lp.py"; then
-    ./bin/extract -repo "${VERIF_REPO:-/repo}" -out lean/BlugeGen -prop "$p" || echo "setup: extractor refused $p (the check will report it)"
+    python3 -c "import sys; sys.path.insert(0,'.'); import vlib, importlib; sp=importlib.import_module('checks.$lp'); rc,out,_=vlib.run_extract('$p', getattr(sp,'EXTRACT_DEPS',())); print(out.strip()[-300:]); sys.exit(rc)" || echo "setup: extractor refused $p (the check will report it)"
   fi
   TARGETS="$TARGETS BlugeProofs.$p drv_$lp"
 done
